@@ -56,7 +56,10 @@ type family struct {
 	DefaultMutex string
 	Guard        map[string]fieldCfg
 	Immutable    map[string]bool
-	Inner        bool // not thread-safe by itself: only "does the method mutate" is computed
+	Inner        bool            // not thread-safe by itself: only "does the method mutate" is computed
+	Private      map[string]bool // fields of a thread-confined object that are its own (not shared, not checked)
+	Confined     bool            // the object itself is used by one goroutine; only what its guarded fields point to is shared
+	Follow       map[string]bool // families whose EXPORTED methods are followed when called on a field/local (sub-objects of this one)
 
 	// derived
 	mutexes map[string]bool                     // mutex field name -> is RWMutex
@@ -84,8 +87,16 @@ var families = []*family{
 		},
 		// onDrop/close/drop: callbacks fixed at construction; parentSnap: fixed at construction
 		Immutable: map[string]bool{"onDrop": true, "close": true, "drop": true, "parentSnap": true}},
+	// the merged iterator: a thread-confined object that aliases the store's overlay tree (`tree`) and read lock
+	// (`lock`); everything else in it is its own cursor state
+	{Key: "flushiter", Dir: "kvdb/flushable", Types: []string{"flushableIterator"}, Report: []string{"flushableIterator"},
+		DefaultMutex: "lock", Confined: true,
+		Guard: map[string]fieldCfg{"tree": {Pointee: "ro:rbt"}},
+		Private: map[string]bool{"key": true, "val": true, "prevKey": true, "parentIt": true, "parentOk": true,
+			"treeNode": true, "treeOk": true, "start": true, "prefix": true}},
 	{Key: "syncedpool", Dir: "kvdb/flushable", Types: []string{"SyncedPool"}, Report: []string{"SyncedPool"},
 		DefaultMutex: "Mutex",
+		Follow:       map[string]bool{"flushable": true}, // the pooled stores
 		Guard: map[string]fieldCfg{
 			"wrappers":    {Mutex: "Mutex"},
 			"queuedDrops": {Mutex: "queuedDropsMu"},
@@ -284,7 +295,7 @@ func (f *family) resolveAny(name string) (*ast.FuncDecl, string) {
 }
 
 func (f *family) guardOf(field string) (fieldCfg, bool) {
-	if f.Immutable[field] {
+	if f.Immutable[field] || f.Private[field] {
 		return fieldCfg{}, false
 	}
 	if !f.fields[field] {
@@ -369,6 +380,7 @@ type scan struct {
 	fresh  map[string]bool
 
 	loopSections []loopSec
+	curFam       *family // family of the frame being walked (exported foreign calls are followed only from the top family's own code)
 }
 
 // frame: the function currently being walked (top or inlined)
@@ -460,6 +472,15 @@ func (sc *scan) lockOp(st lockState, fr *frame, owner string, f *family, m, op s
 			r.reacquire = true
 			r.detail = append(r.detail, fmt.Sprintf("%s.%s.%s while already held at %s", owner, m, op, pos(at)))
 		}
+		for hk := range st { // lock order: every mutex already held -> the one being acquired
+			parts := strings.Split(hk, "\x00")
+			if len(parts) == 3 {
+				lockEdges[parts[1]+"."+parts[2]+" "+f.Key+"."+m] = true
+				if os.Getenv("LOCKSCAN_DEBUG") != "" {
+					fmt.Fprintf(os.Stderr, "edge %s.%s -> %s.%s in %s at %s (held owner %q, new owner %q)\n", parts[1], parts[2], f.Key, m, sc.top.Name.Name, pos(at), parts[0], owner)
+				}
+			}
+		}
 		sc.nextID++
 		id := sc.nextID
 		st[k] = held{mode, id}
@@ -477,6 +498,8 @@ func (sc *scan) lockOp(st lockState, fr *frame, owner string, f *family, m, op s
 		}
 	}
 }
+
+var lockEdges = map[string]bool{}
 
 type loopSec struct {
 	k  rowKey
@@ -600,7 +623,10 @@ func (sc *scan) resolveForeign(prefix string, names []*ast.Ident) resolved {
 			if cfg, ok := f.guardOf(n.Name); ok {
 				return resolved{kind: "field", owner: prefix, fam: f, name: n.Name, cfg: cfg, rest: names[i+1:]}
 			}
-			if last && !isExported(n.Name) {
+			// unexported methods of any scanned type (they expect the caller to hold the lock), and exported
+			// methods of a SUB-OBJECT family (`Follow`; self-locking: each call is one critical section of that
+			// object, which is what tells whether a function touches several sub-objects atomically)
+			if last && (!isExported(n.Name) || (sc.topFam != nil && sc.curFam == sc.topFam && sc.topFam.Follow[f.Key])) {
 				if m, mt := f.resolveAny(n.Name); m != nil {
 					return resolved{kind: "method", owner: prefix, fam: f, name: n.Name, method: m, mtyp: mt}
 				}
@@ -652,6 +678,9 @@ func (sc *scan) expr(st lockState, fr *frame, e ast.Expr, write bool) {
 			}
 		}
 	case *ast.StarExpr:
+		if id, ok := t.X.(*ast.Ident); ok && write && fr.fam != nil && id.Name == fr.recv && fr.fam.Confined {
+			return // resetting a thread-confined object: its own fields only
+		}
 		if id, ok := t.X.(*ast.Ident); ok && write && fr.fam != nil && id.Name == fr.recv {
 			// *recv = T{} : every guarded field (and the mutexes themselves) overwritten
 			for m := range fr.fam.mutexes {
@@ -745,6 +774,16 @@ func (sc *scan) call(st lockState, fr *frame, c *ast.CallExpr, deferred bool) {
 		}
 	case "field":
 		if len(r.rest) == 1 { // method call on the guarded field
+			if strings.HasPrefix(r.cfg.Pointee, "fam:") && st != nil {
+				if pf := familyByKey(r.cfg.Pointee[4:]); pf != nil && !pf.Inner { // the pointee locks itself
+					for hk := range st {
+						parts := strings.Split(hk, "\x00")
+						if len(parts) == 3 {
+							lockEdges[parts[1]+"."+parts[2]+" "+pf.Key+"."+pf.DefaultMutex] = true
+						}
+					}
+				}
+			}
 			sc.access(st, r.owner, r.fam, r.name, r.cfg, sc.pointeeMutates(r.cfg, r.rest[0].Name), sel)
 		} else {
 			sc.access(st, r.owner, r.fam, r.name, r.cfg, false, sel)
@@ -763,7 +802,10 @@ func (sc *scan) inline(st lockState, fr *frame, r resolved) {
 	rn, _ := recvOf(r.method)
 	nf := &frame{recv: rn, fam: r.fam, typ: r.mtyp, owner: r.owner, loopDepth: fr.loopDepth}
 	sc.stack = append(sc.stack, r.method)
+	saved := sc.curFam
+	sc.curFam = r.fam
 	sc.block(st, nf, r.method.Body)
+	sc.curFam = saved
 	sc.stack = sc.stack[:len(sc.stack)-1]
 	if st != nil {
 		for _, k := range nf.deferred {
@@ -978,6 +1020,7 @@ func scanFunc(p *pkg, fd *ast.FuncDecl) *scan {
 		}
 	}
 	sc.stack = []*ast.FuncDecl{fd}
+	sc.curFam = sc.topFam
 	sc.block(lockState{}, fr, fd.Body)
 	sc.loopFix()
 	return sc
@@ -1112,6 +1155,33 @@ func main() {
 		fmt.Fprintf(&b, "  mk_row %q %q %v %q %q %s %d %d %d %d %d %d %v %v %v%s\n", r.typ, r.method, r.exported, r.owner, r.mutex,
 			modes[r.mode], r.reads, r.writes, r.unlockedR, r.unlockedW, r.sharedW, r.sections, r.reacquire, r.condwait, r.quiescent, sep)
 	}
+	b.WriteString("].\n\n")
+	cbRows := scanCallbacks(strings.TrimRight(*repo, "/"))
+	b.WriteString("(* places where one of the objects is constructed with callbacks: site, object, callbacks that are function\n   literals, calls from such a literal on the object being constructed (re-entrant), callbacks from elsewhere *)\n")
+	b.WriteString("(* lock order: (held, acquired) pairs of mutex classes seen in some function *)\n")
+	var edges []string
+	for e := range lockEdges {
+		edges = append(edges, e)
+	}
+	sort.Strings(edges)
+	b.WriteString("Definition lock_order : list (string * string) := [\n")
+	for i, e := range edges {
+		p := strings.SplitN(e, " ", 2)
+		sep := ";"
+		if i == len(edges)-1 {
+			sep = ""
+		}
+		fmt.Fprintf(&b, "  (%q, %q)%s\n", p[0], p[1], sep)
+	}
+	b.WriteString("].\n\n")
+	b.WriteString("Definition callback_table : list cb_row := [\n")
+	for i, r := range cbRows {
+		sep := ";"
+		if i == len(cbRows)-1 {
+			sep = ""
+		}
+		fmt.Fprintf(&b, "  mk_cb %q %q %d %d %d%s\n", r.site, r.object, r.literals, r.reentrant, r.external, sep)
+	}
 	b.WriteString("].\n")
 	if *out != "" {
 		os.MkdirAll(filepath.Dir(*out), 0o755)
@@ -1131,11 +1201,184 @@ func main() {
 			fmt.Fprintf(&tb, "      ! %s\n", d)
 		}
 	}
+	fmt.Fprintf(&tb, "\ncallbacks: site object literals reentrant external\n")
+	for _, r := range cbRows {
+		fmt.Fprintf(&tb, "%-50s %-14s %d %d %d\n", r.site, r.object, r.literals, r.reentrant, r.external)
+		for _, d := range r.detail {
+			fmt.Fprintf(&tb, "      . %s\n", d)
+		}
+	}
 	if *txt != "" {
 		os.WriteFile(*txt, []byte(tb.String()), 0o644)
 	} else if *out != "" {
 		fmt.Print(tb.String())
 	}
+}
+
+// ---------------------------------------------------------------- callbacks given to the objects (re-entrancy)
+
+// The five objects call application callbacks while holding their mutex (EventsBuffer: Process/Released/Get/
+// Exists/Check; wlru: onEvicted; DataSemaphore: warning; Flushable: onDrop).  sync mutexes are not re-entrant, and
+// the linearizability instances treat a callback as part of the operation's effect: a callback must not call an
+// operation of the object it was given to.  What can be checked of that in this repository: every place where one
+// of the objects is constructed with callbacks is listed; callbacks that are function literals (directly, or a
+// variable/field assigned a literal in the same function) are searched for calls on the expression the new object
+// is stored in (`f.buffer = dagordering.New(...)` -> any `f.buffer.X(...)` inside the literal is re-entrant);
+// callbacks that come from elsewhere are counted as external (covered by the hypothesis only).
+type cbRow struct {
+	site, object                  string
+	literals, reentrant, external int
+	detail                        []string
+}
+
+type ctorSpec struct {
+	pkgSuffix, fn, object string
+	cbArgs                []int // argument positions holding callbacks (a composite literal = its field values)
+}
+
+var ctors = []ctorSpec{
+	{"gossip/dagordering", "New", "EventsBuffer", []int{1}},
+	{"utils/wlru", "NewWithEvict", "Cache", []int{2}},
+	{"utils/datasemaphore", "New", "DataSemaphore", []int{1}},
+	{"kvdb/flushable", "NewLazy", "LazyFlushable", []int{0, 1}},
+	{"kvdb/flushable", "WrapWithDrop", "Flushable", []int{1}},
+}
+
+func scanCallbacks(repo string) []cbRow {
+	var rows []cbRow
+	filepath.WalkDir(repo, func(path string, d os.DirEntry, err error) error {
+		if err != nil {
+			return nil
+		}
+		if d.IsDir() {
+			n := d.Name()
+			if n == ".git" || n == "vendor" || n == "testdata" {
+				return filepath.SkipDir
+			}
+			return nil
+		}
+		if !strings.HasSuffix(path, ".go") || strings.HasSuffix(path, "_test.go") {
+			return nil
+		}
+		f, perr := parser.ParseFile(fset, path, nil, 0)
+		if perr != nil {
+			return nil
+		}
+		imports := map[string]string{} // local name -> import path
+		for _, im := range f.Imports {
+			ip := strings.Trim(im.Path.Value, "\"")
+			name := ip[strings.LastIndex(ip, "/")+1:]
+			if im.Name != nil {
+				name = im.Name.Name
+			}
+			imports[name] = ip
+		}
+		pkgDir, _ := filepath.Rel(repo, filepath.Dir(path))
+		for _, decl := range f.Decls {
+			fd, ok := decl.(*ast.FuncDecl)
+			if !ok || fd.Body == nil {
+				continue
+			}
+			// literals assigned to variables/fields in this function: printed lhs -> literal
+			assigned := map[string]*ast.FuncLit{}
+			ast.Inspect(fd.Body, func(n ast.Node) bool {
+				if as, ok := n.(*ast.AssignStmt); ok {
+					for i, r := range as.Rhs {
+						if fl, ok := r.(*ast.FuncLit); ok && i < len(as.Lhs) {
+							assigned[exprString(as.Lhs[i])] = fl
+						}
+					}
+				}
+				return true
+			})
+			ast.Inspect(fd.Body, func(n ast.Node) bool {
+				as, ok := n.(*ast.AssignStmt)
+				var call *ast.CallExpr
+				target := ""
+				if ok && len(as.Rhs) == 1 {
+					call, _ = as.Rhs[0].(*ast.CallExpr)
+					target = exprString(as.Lhs[0])
+				} else if rs, ok2 := n.(*ast.ReturnStmt); ok2 && len(rs.Results) > 0 {
+					call, _ = rs.Results[0].(*ast.CallExpr)
+				} else if kv, ok3 := n.(*ast.KeyValueExpr); ok3 {
+					call, _ = kv.Value.(*ast.CallExpr)
+				}
+				if call == nil {
+					return true
+				}
+				var spec *ctorSpec
+				switch fn := call.Fun.(type) {
+				case *ast.SelectorExpr:
+					if x, ok := fn.X.(*ast.Ident); ok {
+						for i := range ctors {
+							if fn.Sel.Name == ctors[i].fn && strings.HasSuffix(imports[x.Name], ctors[i].pkgSuffix) {
+								spec = &ctors[i]
+							}
+						}
+					}
+				case *ast.Ident: // inside the defining package
+					for i := range ctors {
+						if fn.Name == ctors[i].fn && pkgDir == ctors[i].pkgSuffix {
+							spec = &ctors[i]
+						}
+					}
+				}
+				if spec == nil {
+					return true
+				}
+				row := cbRow{site: fmt.Sprintf("%s:%d", filepath.ToSlash(strings.TrimPrefix(path, repo+"/")), fset.Position(call.Pos()).Line), object: spec.object}
+				var cbs []ast.Expr
+				for _, ai := range spec.cbArgs {
+					if ai >= len(call.Args) {
+						continue
+					}
+					if cl, ok := call.Args[ai].(*ast.CompositeLit); ok {
+						for _, el := range cl.Elts {
+							if kv, ok := el.(*ast.KeyValueExpr); ok {
+								cbs = append(cbs, kv.Value)
+							} else {
+								cbs = append(cbs, el)
+							}
+						}
+					} else {
+						cbs = append(cbs, call.Args[ai])
+					}
+				}
+				for _, cbe := range cbs {
+					if id, ok := cbe.(*ast.Ident); ok && id.Name == "nil" {
+						continue
+					}
+					fl, ok := cbe.(*ast.FuncLit)
+					if !ok {
+						fl = assigned[exprString(cbe)]
+					}
+					if fl == nil {
+						row.external++
+						row.detail = append(row.detail, "external callback "+exprString(cbe))
+						continue
+					}
+					row.literals++
+					if target == "" {
+						continue
+					}
+					ast.Inspect(fl.Body, func(m ast.Node) bool {
+						if c2, ok := m.(*ast.CallExpr); ok {
+							if se, ok := c2.Fun.(*ast.SelectorExpr); ok && exprString(se.X) == target {
+								row.reentrant++
+								row.detail = append(row.detail, fmt.Sprintf("callback calls %s.%s at %s", target, se.Sel.Name, pos(c2)))
+							}
+						}
+						return true
+					})
+				}
+				rows = append(rows, row)
+				return true
+			})
+		}
+		return nil
+	})
+	sort.Slice(rows, func(i, j int) bool { return rows[i].site < rows[j].site })
+	return rows
 }
 
 func b2i(b bool) int {
